@@ -46,7 +46,7 @@ C05Problems(ev) ==
                  THEN {} ELSE {"a computed variable is not computed by exactly one equation (or one NLA system) of the right type"})
            \cup (IF \A i \in DOMAIN nv : (nv[i].name \in ClassNames(sys) /\ RoleOf(sys, nv[i].name) \in {"cc", "alg", "state"}) =>
                      LET c == Get(sys, nv[i].name) e == base.eqs[base.computedBy[nv[i].id][1] + 1] IN
-                     \A j \in DOMAIN c.deps : (c.deps[j] \notin {"t", "u"} /\ Get(sys, c.deps[j]).role = "alg") =>
+                     \A j \in DOMAIN c.deps : (c.deps[j] \notin {"t", "u", "w"} /\ Get(sys, c.deps[j]).role = "alg") =>
                          \E m \in DOMAIN nv : nv[m].name = c.deps[j] /\ base.computedBy[nv[m].id][1] \in SR(e.deps)
                  THEN {} ELSE {"an equation does not depend on the equation computing an algebraic variable it reads"})
            \cup (IF Acyclic(base.eqs) THEN {} ELSE {"directly solved equations cannot be ordered"})
